@@ -249,7 +249,9 @@ func crashfuzzcCmd(args []string) int {
 		if !waitFor(30*time.Second, loggedIn) {
 			return false
 		}
-		for try := 0; try < 3; try++ {
+		// time-bounded, not try-bounded: after a refused login the client logs in again after its back-off, which under load can
+		// take longer than three quick attempts (thorough-tier false alarm: alive() gave up within 2 s while frpc was between logins)
+		for deadline := time.Now().Add(45 * time.Second); time.Now().Before(deadline); {
 			for len(srv.works) > 0 { // pooled work connections of earlier rounds
 				(<-srv.works).Close()
 			}
